@@ -415,6 +415,16 @@ func registerEnvStubs(e *Engine) {
 		return iface{}
 	}
 	in["encoding/json.Marshal"] = func(fr *frame, a []value) value {
+		if itf, ok := a[0].(iface); ok {
+			if ss, ok := itf.v.(sstr); ok {
+				ts := jsonEscapeSym(fr.i.ps, ss.b)
+				out := make([]value, len(ts))
+				for k, t := range ts {
+					out[k] = ss.byteVal(t)
+				}
+				return tuple{out, iface{}}
+			}
+		}
 		b, err := json.Marshal(toNativeJSON(a[0]))
 		if err != nil {
 			return tuple{[]value(nil), fr.i.nativeErr(err)}
@@ -770,4 +780,42 @@ func deepCopyJSON(v value) value {
 		return out
 	}
 	return v
+}
+
+// jsonEscapeSym is encoding/json's string encoding (HTML escaping on) over symbolic ASCII bytes.
+func jsonEscapeSym(ps *pathState, bs []*smt.Term) []*smt.Term {
+	c := func(s string) []*smt.Term { return strTerms(s) }
+	out := c("\"")
+	hexDigit := func(n *smt.Term) *smt.Term {
+		return smt.Ite(smt.BvCmp(smt.OpBvUlt, n, smt.BV(10, 8)), smt.BvBin(smt.OpBvAdd, n, smt.BV('0', 8)), smt.BvBin(smt.OpBvAdd, n, smt.BV('a'-10, 8)))
+	}
+	for _, b := range bs {
+		eq := func(ch byte) bool { return ps.decide(smt.Eq(b, smt.BV(uint64(ch), 8))) }
+		switch {
+		case eq('"'):
+			out = append(out, c("\\\"")...)
+		case eq('\\'):
+			out = append(out, c("\\\\")...)
+		case eq('\n'):
+			out = append(out, c("\\n")...)
+		case eq('\r'):
+			out = append(out, c("\\r")...)
+		case eq('\t'):
+			out = append(out, c("\\t")...)
+		case eq('<'):
+			out = append(out, c("\\u003c")...)
+		case eq('>'):
+			out = append(out, c("\\u003e")...)
+		case eq('&'):
+			out = append(out, c("\\u0026")...)
+		case ps.decide(smt.BvCmp(smt.OpBvUlt, b, smt.BV(0x20, 8))):
+			out = append(out, c("\\u00")...)
+			out = append(out, hexDigit(smt.BvBin(smt.OpBvLshr, b, smt.BV(4, 8))), hexDigit(smt.BvBin(smt.OpBvAnd, b, smt.BV(15, 8))))
+		case ps.decide(smt.BvCmp(smt.OpBvUlt, b, smt.BV(0x80, 8))):
+			out = append(out, b)
+		default:
+			panic(pathEnd{"assume-false", "non-ASCII symbolic byte in json.Marshal (outside the stated bound)"})
+		}
+	}
+	return append(out, c("\"")...)
 }
